@@ -153,3 +153,19 @@ impl Sem for Single {
     }
     std_io!();
 }
+
+/// a unit struct
+#[derive(CanonicalSerialize, CanonicalDeserialize, Debug)]
+pub struct UnitS;
+
+impl Sem for UnitS {
+    const CANONICAL: bool = true;
+    const ZST: bool = true;
+    fn gen(_: &mut G<'_>) -> Self {
+        UnitS
+    }
+    fn same(&self, _: &Self) -> bool {
+        true
+    }
+    std_io!();
+}
